@@ -298,11 +298,13 @@ async def _run_app(
 
     runner = AppRunner(app, **kwargs)
 
-    await runner.setup()
-
     sites: list[BaseSite] = []
 
     try:
+        # Inside the try: if a startup step fails, the cleanup contexts
+        # that did start are still exited by runner.cleanup().
+        await runner.setup()
+
         if host is not None:
             if isinstance(host, str):
                 sites.append(
